@@ -68,6 +68,7 @@ def C04(rep, prog, tier):
             mcsops.lex_rec(rep, ex, be)
             mcsops.lex_ties(rep, ex, be)
             mcsops.w_entry(rep, ex, be, strict=True, extended=False, prefix="LEX", n_objects=2)
+            mcsops.lex_strict_shortcuts(rep, ex, be)
     wrappers.shortcut_guard(rep, ex)
     wrappers.shortcut_dominance(rep, ex)
     part.check_all(rep, ex)
